@@ -73,6 +73,10 @@ def check_c04(ctx, job, gro, top):
         ti = t_of.get(m)
         if ti is None:
             continue
+        if (ti, n) in ctx.ligated:
+            # the node stood in for a ligand molecule while its host was built (-lig)
+            ti, n = ctx.ligated[(ti, n)]
+            ctx.probe("ligand_placed_with_host")
         added.add((ti, top.molecules[ti].nodes[n]["resid"]))
     expected = {(i, r) for i, r in job.get("expected_built", []) if i not in ignored}
     if added != expected:
